@@ -373,7 +373,7 @@ Fixpoint g_load (c : ctx) (fuel : nat) (stack : list path) (st : gstate) (dir : 
 Definition g_init : gstate := {| g_done := []; g_log := [] |}.
 
 Definition g_run_dir (c : ctx) (dir : path) : list event * option err :=
-  match g_load c (S (length (c_tree c))) [] g_init dir with
+  match g_load c (load_fuel (c_tree c)) [] g_init dir with
   | (st, None) => (g_log st ++ [EvMain dir], None)
   | (st, Some x) => (g_log st, Some x)
   end.
